@@ -57,6 +57,11 @@ type Prog struct {
 
 	depFuncs map[*types.Func]*Func // lazily built functions of dependency packages
 	depDone  map[string]bool
+
+	origNode map[ast.Node]ast.Node         // copied node → node it was copied from
+	origObj  map[types.Object]types.Object // renamed object → declared object
+	views    map[viewKey]*Func
+	viewSets map[string]*ViewSet
 }
 
 // Func is a declared function, method or function literal with a body.
@@ -72,6 +77,11 @@ type Func struct {
 	Lits   []*Func // literals directly or indirectly nested, in source order
 	name   string
 	graph  *cfgx.Graph
+
+	View         bool              // an expanded view produced by Prog.Expand
+	Base         *Func             // the loaded function a view was derived from
+	Inlined      []*types.Func     // callees whose bodies were copied into the view
+	InlinedCalls map[ast.Node]bool // loaded call expressions expanded in the view
 }
 
 // Load loads dir's packages (pattern ./...) with full syntax for dependencies.
@@ -94,7 +104,8 @@ func Load(dir string, overlay map[string][]byte) (*Prog, error) {
 		return nil, fmt.Errorf("no packages loaded from %s", dir)
 	}
 	absDir, _ := filepath.Abs(dir)
-	p := &Prog{Root: absDir, All: map[string]*packages.Package{}, byObj: map[*types.Func]*Func{}, byLit: map[*ast.FuncLit]*Func{}, files: map[*ast.File]*packages.Package{}}
+	p := &Prog{Root: absDir, All: map[string]*packages.Package{}, byObj: map[*types.Func]*Func{}, byLit: map[*ast.FuncLit]*Func{}, files: map[*ast.File]*packages.Package{},
+		origNode: map[ast.Node]ast.Node{}, origObj: map[types.Object]types.Object{}}
 	var errs []string
 	packages.Visit(pkgs, nil, func(pkg *packages.Package) {
 		p.All[pkg.PkgPath] = pkg
